@@ -203,18 +203,13 @@ func init() {
 						}
 					}
 				}
-				inRange := strings.HasPrefix(d.Block().Comment, "rangeindex.body") || d.Block().Comment == "rangeindex.body"
-				for b := d.Block(); b != nil && !inRange; b = b.Idom() {
-					if b.Comment == "rangeindex.body" {
-						inRange = true
-					}
-				}
-				c.Check(inRange && regexp.MustCompile(`^\w+\.Data\.Txs\[\(phi\(\(phi:rangeindex \+ 1\)\|-1\) \+ 1\)\]$`).MatchString(tx), fk+" :: DeliverTx delivers Txs[i] of a forward range over block.Data.Txs", w.ipos(d), "tx = "+tx, "delivered tx is "+tx+" (in range loop: "+fmt.Sprint(inRange)+")")
+				inRange := loopOf(d) != nil
+				c.Check(inRange && regexp.MustCompile(`^\w+\.Data\.Txs\[`+fwdIdx+`\]$`).MatchString(tx), fk+" :: DeliverTx delivers Txs[i] of a forward range over block.Data.Txs", w.ipos(d), "tx = "+tx, "delivered tx is "+tx+" (in loop: "+fmt.Sprint(inRange)+")")
 			}
 			ends := w.callsTo(f, "proxy#AppConnConsensus.EndBlockSync")
 			c.Check(len(ends) == 1, fk+" :: one EndBlock", w.pos(f.Pos()), "single EndBlockSync", fmt.Sprintf("%d EndBlockSync calls", len(ends)))
 			for _, e := range ends {
-				c.guards(f, e, fk+" :: EndBlock", 0, beginOK, guardCmp("all txs delivered (range exhausted)", `.*rangeindex.*`, ">=", `len\(\w+\.Data\.Txs\)`))
+				c.guards(f, e, fk+" :: EndBlock", 0, beginOK, guardCmp("all txs delivered (range exhausted)", fwdIdx, ">=", `len\(\w+\.Data\.Txs\)`))
 				hv := ""
 				if al := allocOf(callArgs(e)[0]); al != nil {
 					for _, r := range *al.Referrers() {
@@ -265,14 +260,13 @@ func init() {
 					ok, why := w.holdsLock(f, fl, regexp.MustCompile(`\.mempool!$`), 0)
 					c.Check(ok, fk+" :: FlushAppConn under mempool lock", w.ipos(fl), "flush happens after Lock", "mempool not locked when flushing: "+why)
 				}
-				ups := w.callsTo(f, "mempool#Mempool.Update")
+				ups := w.deepCallsTo(f, 2, "mempool#Mempool.Update")
 				c.Check(len(ups) == 1, fk+" :: mempool.Update present", w.pos(f.Pos()), "single Update", fmt.Sprintf("%d mempool.Update calls", len(ups)))
 				for _, up := range ups {
-					ok, why := w.holdsLock(f, up, regexp.MustCompile(`\.mempool!$`), 0)
-					c.Check(ok, fk+" :: mempool.Update under mempool lock", w.ipos(up), "still locked", "mempool lock not held at Update: "+why)
-					c.guards(f, up, fk+" :: mempool.Update", 0, guardRe("CommitSync error = nil", `^nil\(.*\.CommitSync\(\)#1\)$`))
-					a := callArgs(up)
-					c.Check(strings.HasSuffix(w.expr(a[0]), ".Height") && strings.HasSuffix(w.expr(a[1]), ".Data.Txs"), fk+" :: mempool.Update(block height, block txs, …)", w.ipos(up), "update is for the committed block", "Update("+w.expr(a[0])+", "+w.expr(a[1])+", …)")
+					ok, why := w.holdsLock(f, up.site, regexp.MustCompile(`\.mempool!$`), 0)
+					c.Check(ok, fk+" :: mempool.Update under mempool lock", w.ipos(up.site), "still locked", "mempool lock not held at Update: "+why)
+					c.guards(f, up.site, fk+" :: mempool.Update", 0, guardRe("CommitSync error = nil", `^nil\(.*\.CommitSync\(\)#1\)$`))
+					c.Check(strings.HasSuffix(up.arg(0), ".Height") && strings.HasSuffix(up.arg(1), ".Data.Txs"), fk+" :: mempool.Update(block height, block txs, …)", w.ipos(up.site), "update is for the committed block", "Update("+up.arg(0)+", "+up.arg(1)+", …)")
 				}
 			}
 			// the unlock is deferred only (held until the function returns)
